@@ -74,6 +74,20 @@ def build_runtime_case(rng):
             rng_ = (first + rel + 1, first + rel + 1)
         add(filler(rng, ind, n=rng.randint(0, 1)), 0)
         return rng_
+    if rng.random() < 0.08:
+        # direct self recursion, no native frames involved: the call-site line appears once per level, exactly
+        k = rng.randint(1, 6)
+        add(["rz = |n_|"], 0)
+        add(filler(rng, 1, n=rng.randint(0, 1)), 0)
+        add(["if n_ == 0"], 1)
+        f_at = add(["q_ = 1 + null"], 2)
+        c_at = add(["r_ = rz(n_ - 1)"], 1)
+        add(["r_"], 1)
+        add(filler(rng, 0), 0)
+        t_at = add(["c_ = rz(%d)" % k], 0)
+        add(filler(rng, 0, n=rng.randint(0, 1)), 0)
+        exact = [f_at + 1] + [c_at + 1] * k + [t_at + 1]
+        return "\n".join(lines) + "\n", [(x, x) for x in exact], "recursion_exact"
     if rng.random() < 0.2:
         # the fault sits in a generator body right after a yield, its operands are already in registers:
         # the first instruction executed after the resume is the failing one
@@ -188,6 +202,10 @@ def _shard(shard, n, tier, seed, budget_s):
                 rep["violations"].append({"key": "panic:" + r["panic"]["signature"], "summary": "panic while running / rendering a planted fault: " + r["panic"]["message"][:80], "case": {"src": src, "panic": r["panic"]}})
                 continue
             why = judge_trace(src, expected, r)
+            if not why and kind == "recursion_exact":
+                got_exact = [f["start_line"] + 1 for f in (r.get("frames") or [])]
+                if got_exact != [a for a, _ in expected]:
+                    why = "the trace of a direct recursion lists lines %s, expected exactly %s (one frame per level)" % (got_exact, [a for a, _ in expected])
             if why:
                 rep["violations"].append({"key": "trace:%s" % sha(src), "summary": "runtime trace (%s, depth %d): %s" % (kind, len(expected) - 1, why), "case": {"src": src, "expected": expected, "frames": r.get("frames"), "rendered": r.get("rendered")}})
                 continue
